@@ -934,23 +934,31 @@ import numpy as np
 ID = 'C01'
 RULE = ('for each of the 27 public functions the property lists (slope aspect curvature hillshade; focal mean/apply/'
         'focal_stats/hotspots; convolution_2d; binary reclassify equal_interval; arvi evi gci nbr nbr2 ndvi ndmi savi sipi '
-        'ebbi true_color; perlin generate_terrain): rasters H,W in 1..12 with NaN/+-inf cells (float dtypes), dtypes '
-        'int8..int64/uint8/float32/float64, cell sizes x != y via coords or the res attribute, odd kernels of every '
-        'shape <= raster (non-square included), chunkings: all-ones (1-cell chunks), single chunk, chunks no larger than '
-        'the kernel half-width, random compositions of H and of W (thorough: ALL compositions for H,W <= 4), different '
-        'chunkings per band for multi-band indices; schedulers synchronous and threads x {1,4,16} workers. '
-        'generate_terrain with seeds (0 included), zfactor and x_range/y_range/full_extent combinations where the tile '
-        'covers different fractions of the extent in x and y; perlin with unequal (x, y) freq and seed 0. A second '
-        'stream builds 2-3 lazy results of a parametrised function on the SAME Dask rasters with different parameter '
-        'values (e.g. reclassify with the same bins and different new_values) and computes them in ONE dask.compute. '
-        'Correspondence extras: hillshade with the sun at the zenith vs the gradient model (|diff| <= 3e-6); perlin / '
-        'generate_terrain with the noise kernel replaced by the x- resp. y-coordinate vs the ramp model, whole and blockwise '
-        '(|diff| <= 3e-5 x scale). Oracle = the same call on the NumPy-backed raster: result must be a dask Array before compute and after '
-        'compute equal shape/dtype/bits (NaN==NaN) for the same-kernel functions; stated tolerances: hotspots may '
-        'differ only where |z| is within 1e-4 of a confidence threshold (global mean/std reduced per block), perlin '
-        '|diff| <= 2e-6 and generate_terrain |diff| <= 2e-6*zfactor or a water-threshold (0.3) flip within that '
-        'tolerance (float32 vs float64 normalisation and da.linspace coordinates). Cases where the NumPy call itself '
-        'raises are outside the domain. Non-trivial = NumPy result has >= 1 non-NaN cell; distinct by JSON.')
+        'ebbi true_color; perlin generate_terrain): rasters H,W in 1..12 with NaN/+-inf cells at random and structured '
+        'places (whole row / column / frame), dtypes int8..int64, uint8..uint64, float32/float64 and (rarely) float16; '
+        'cell sizes x != y via coords or the res attribute; raster layouts: dims y/x, lat/lon, row/col, dim_0/dim_1, with and '
+        'without coordinates, descending y, extra scalar coordinates; odd kernels of every shape <= raster (non-square '
+        'included); chunkings: all-ones, single chunk, one block tall x several wide and vice versa, chunks no larger '
+        'than the kernel half-width, random compositions of H and of W (thorough: ALL compositions for H,W <= 4), '
+        'different chunkings per band; schedulers synchronous and threads x {1,2,4,16}. Parameters: mean passes 0..6 and '
+        'excludes lists ([], [0], [nan,0], [v], [nan,v,w]); equal_interval k in 1..64; hillshade azimuth 0..360 and altitude '
+        '0..90 (integers and fractions); evi c1/c2/soil_factor/gain, savi soil_factor in [-1,1]; true_color nodata incl. 0, '
+        'negative, fractional, c and th; reclassify 1..12 bins incl. an inf last bin; hotspots incl. large-offset / '
+        'small-spread rasters (|mean|/std 1e2..1e5) with planted clusters; perlin unequal freq, seeds incl. 0; '
+        'generate_terrain seeds incl. 0, zfactor, x_range/y_range/full_extent with unequal x/y fractions. The quick tier '
+        'draws the dtype from a seed-dependent subset (3 integer widths + float32/64, sometimes float16); thorough and '
+        'search() use all. A second stream builds 2-3 lazy results of a parametrised function on the SAME Dask rasters with '
+        'different parameter values (e.g. reclassify with the same bins and different new_values) and computes them in ONE '
+        'dask.compute. Correspondence extras: hillshade with the sun at the zenith vs the gradient model (|diff| <= 3e-6); '
+        'perlin / generate_terrain with the noise kernel replaced by the x- resp. y-coordinate vs the ramp model, whole and '
+        'blockwise (|diff| <= 3e-5 x scale). Oracle = the same call on the NumPy-backed raster: result must be a dask Array '
+        'before compute and after compute equal shape/dtype/bits (NaN==NaN) for the same-kernel functions; stated '
+        'tolerances: hotspots classes may differ only where |z| is within max(1e-4, 16*eps32*(|mean|/std + |z|)) of a '
+        'confidence threshold (global float32 mean/std reduced per block); perlin |diff| <= tol and generate_terrain '
+        '|diff| <= tol*zfactor or a water-threshold (0.3) flip within that tolerance, tol = max(2e-6, 2 eps(template dtype)) '
+        'for perlin and max(2e-6, 32 eps(template dtype)) for terrain (the NumPy path computes and normalises in the '
+        'template dtype, the Dask path in float32; da.linspace coordinates). Cases where the NumPy call itself raises are '
+        'outside the domain (counted under outside-domain/ in the input distribution). Non-trivial = distinct by JSON.')
 TRUSTED = [
     'Dask itself: that x.map_overlap(f, depth, boundary=nan) hands f the block plus a halo taken from the neighbouring '
     'blocks / NaN outside the raster (re-chunking when a chunk is smaller than the depth), trims depth cells and '
@@ -970,7 +978,8 @@ ASSUMPTIONS = [
     'NumPy-backed and Dask-on-NumPy-backed rasters only (no CuPy); H, W >= 1; kernels odd and no larger than the raster '
     '(Dask refuses a halo deeper than the array); inputs on which the NumPy call raises (slope/curvature on a 1-row '
     'raster without res, hillshade on < 2 rows, hotspots with zero variance, equal_interval on constant data, '
-    'perlin/terrain on integer templates) have no reference result and are not compared',
+    'mean with excludes=[] and passes >= 1 (Numba cannot type the empty tuple), float16 rasters in the Numba kernels that '
+    'refuse half precision, perlin/terrain on integer templates) have no reference result and are not compared',
     'schedulers: synchronous and threads with 1/4/16 workers are run; the model has no schedule (every block task is a '
     'pure function of its padded block)',
 ]
@@ -1032,10 +1041,12 @@ def plan_depth(site, kr, kc):
 
 
 # ------------------------------------------------------------------ inputs
-INT_DT = ['int8', 'int16', 'int32', 'int64', 'uint8']
-FLT_DT = ['float32', 'float64']
+INT_DT = ['int8', 'int16', 'int32', 'int64', 'uint8', 'uint16', 'uint32', 'uint64']
+FLT_DT = ['float32', 'float64', 'float16']
 ALL_DT = INT_DT + FLT_DT
-SCHEDS = [('synchronous', 1), ('threads', 1), ('threads', 4), ('threads', 16)]
+# float16 is drawn rarely: most Numba kernels refuse it on the NumPy path (outside the domain)
+DT_WEIGHTED = INT_DT + ['float32', 'float64'] * 3 + ['float16']
+SCHEDS = [('synchronous', 1), ('threads', 1), ('threads', 2), ('threads', 4), ('threads', 16)]
 
 SURFACE = ['slope', 'aspect', 'curvature', 'hillshade']
 KERNELLED = ['convolution_2d', 'apply', 'focal_stats', 'hotspots']
@@ -1071,6 +1082,10 @@ def gen_chunks(rng, H, W, style, half=(1, 1)):
         return [[1] * H, [1] * W]
     if style == 'single':
         return [[H], [W]]
+    if style == 'rowstrip':   # one block tall, several wide
+        return [[H], composition(rng, W, max(1, W // 2))]
+    if style == 'colstrip':   # several tall, one block wide
+        return [composition(rng, H, max(1, H // 2)), [W]]
     if style == 'small':      # no chunk larger than the kernel half-width (at least 1)
         return [composition(rng, H, max(1, half[0])), composition(rng, W, max(1, half[1]))]
     return [composition(rng, H), composition(rng, W)]
@@ -1078,8 +1093,9 @@ def gen_chunks(rng, H, W, style, half=(1, 1)):
 
 def gen_data(rng, H, W, dtype, kind='small'):
     lo, hi = {'small': (-5, 20), 'pos': (0, 60), 'spectral': (0, 3000), 'tiny': (0, 4)}[kind]
-    if dtype == 'uint8':
+    if dtype.startswith('uint'):
         lo = max(lo, 0)
+    if dtype == 'uint8':
         hi = min(hi, 200)
     if dtype == 'int8':
         hi = min(hi, 100)
@@ -1097,7 +1113,40 @@ def gen_data(rng, H, W, dtype, kind='small'):
                     vals[r][c] = float('inf')
                 elif u < 0.12:
                     vals[r][c] = float('-inf')
+    if dtype in FLT_DT and H * W > 1 and rng.random() < 0.15:
+        # structured NaN placement: a whole row / column / the frame (chunk borders and halos see only NaN)
+        how = rng.choice(['row', 'col', 'frame'])
+        for r in range(H):
+            for c in range(W):
+                if (how == 'row' and r == H // 2) or (how == 'col' and c == W // 2) or \
+                        (how == 'frame' and (r in (0, H - 1) or c in (0, W - 1))):
+                    vals[r][c] = float('nan')
     return vals
+
+
+def gen_hotspot_offset(rng, H, W):
+    """large offset, small spread (|mean|/std about 1e2 .. 1e5) with a planted 3x3 cluster: every value is an integer
+    below 2^24, so it is exact in float32 and the classes are well defined"""
+    off, sp = rng.choice([(3000, 5), (3000, 20), (30000, 5), (30000, 20), (300000, 5), (300000, 20), (300000, 200),
+                          (2000000, 20), (2000000, 200)])
+    d = [[float(off + rng.randint(-sp, sp)) for _ in range(W)] for _ in range(H)]
+    for sign in (1, -1):
+        y0, x0 = rng.randrange(max(1, H - 2)), rng.randrange(max(1, W - 2))
+        for y in range(y0, min(H, y0 + 3)):
+            for x in range(x0, min(W, x0 + 3)):
+                d[y][x] += sign * 3 * sp
+    return d
+
+
+LAYOUTS = [
+    dict(dims=['y', 'x'], coords=True, scalar=False, desc=False),
+    dict(dims=['y', 'x'], coords=True, scalar=False, desc=False),
+    dict(dims=['y', 'x'], coords=True, scalar=True, desc=False),      # extra scalar coordinates (band, spatial_ref)
+    dict(dims=['y', 'x'], coords=True, scalar=False, desc=True),      # north-up raster: y descending
+    dict(dims=['lat', 'lon'], coords=True, scalar=True, desc=True),
+    dict(dims=['row', 'col'], coords=False, scalar=False, desc=False),  # no coordinates at all
+    dict(dims=['dim_0', 'dim_1'], coords=False, scalar=True, desc=False),
+]
 
 
 def gen_kernel(rng, H, W, binary, force=None):
@@ -1138,31 +1187,43 @@ def terrain_params(rng, case, asym=None):
     case['full_extent'] = list(fe) if fe is not None else None
 
 
+# quick tier: every dtype costs one Numba specialisation per kernel, so one run draws from a seed-dependent subset
+# (3 integer widths + float32/float64, float16 in some runs); thorough and search() use every dtype
+_DT_POOL = None
+
+
 def gen_case(rng, fn, H=None, W=None, style=None, sched=None):
     H = H or rng.randint(1, 12)
     W = W or rng.randint(1, 12)
     if fn in ('perlin', 'generate_terrain'):
         dtype = rng.choice(FLT_DT)
     else:
-        dtype = rng.choice(ALL_DT)
-    style = style or rng.choice(['ones', 'single', 'small', 'random', 'random'])
+        dtype = rng.choice(_DT_POOL or DT_WEIGHTED)
+    style = style or rng.choice(['ones', 'single', 'small', 'random', 'random', 'rowstrip', 'colstrip'])
     sched = sched or rng.choice(SCHEDS)
     case = dict(fn=fn, H=H, W=W, dtype=dtype, sched=sched[0], workers=sched[1], style=style)
     cs = rng.choice([(1.0, 1.0), (2.0, 0.5), (10.0, 30.0), (0.25, 4.0)])   # (x, y) cell sizes
     case['cellsize'] = list(cs)
     case['res_attr'] = bool(H == 1 or W == 1 or rng.random() < 0.4)
+    case['layout'] = rng.choice(LAYOUTS[:4]) if fn == 'true_color' else rng.choice(LAYOUTS)   # true_color reads r['y'], r['x']
     half = (1, 1)
     if fn in SURFACE or fn == 'mean':
         case['data'] = gen_data(rng, H, W, dtype, 'small')
         if fn == 'hillshade':
-            case['azimuth'] = rng.choice([225, 0, 90, 315, 17])
-            case['angle_altitude'] = rng.choice([25, 45, 0, 90])
+            case['azimuth'] = rng.choice([225, 0, 90, 315, 360, 17, rng.randint(0, 360), round(rng.uniform(0, 360), 2)])
+            case['angle_altitude'] = rng.choice([25, 45, 0, 90, rng.randint(0, 90), round(rng.uniform(0, 90), 2)])
         if fn == 'mean':
-            case['passes'] = rng.randint(1, 3)
+            case['passes'] = rng.choice([0, 1, 1, 2, 3, 4, 6])
+            case['excludes'] = rng.choice([None, None, [], [0.0], [float('nan'), 0.0], [float(rng.randint(-5, 20))],
+                                           [float('nan'), float(rng.randint(-5, 20)), float(rng.randint(-5, 20))]])
     elif fn in KERNELLED:
         case['data'] = gen_data(rng, H, W, dtype, 'small')
         case['kernel'] = gen_kernel(rng, H, W, binary=(fn != 'convolution_2d'))
         half = (len(case['kernel']) // 2, len(case['kernel'][0]) // 2)
+        if fn == 'hotspots' and H >= 4 and W >= 4 and dtype not in ('int8', 'uint8', 'int16', 'uint16', 'float16') \
+                and rng.random() < 0.35:
+            case['data'] = gen_hotspot_offset(rng, H, W)
+            case['kind'] = 'offset'
         if fn == 'apply':
             case['func'] = rng.choice(APPLY_FUNCS)
         if fn == 'focal_stats':
@@ -1177,17 +1238,19 @@ def gen_case(rng, fn, H=None, W=None, style=None, sched=None):
         case['values'] = vals
     elif fn == 'reclassify':
         case['data'] = gen_data(rng, H, W, dtype, 'small')
-        nb_ = rng.randint(1, 5)
+        nb_ = rng.choice([1, 2, 3, 4, 5, 8, 12])
         cur = rng.randint(-6, 2)
         bins = []
         for _ in range(nb_):
             cur += rng.randint(0, 6)
             bins.append(float(cur))
+        if rng.random() < 0.25:
+            bins[-1] = float('inf')
         case['bins'] = bins
-        case['new_values'] = [float(rng.randint(0, 9)) for _ in range(nb_)]
+        case['new_values'] = [float(rng.randint(0, 9)) + rng.choice([0, 0, 0.5]) for _ in range(nb_)]
     elif fn == 'equal_interval':
         case['data'] = gen_data(rng, H, W, dtype, 'small')
-        case['k'] = rng.randint(2, 6)
+        case['k'] = rng.choice([1, 2, 3, 4, 5, 6, 7, 9, 12, 16, 32, 64, rng.randint(2, 64)])
     elif fn in SPECTRAL3 + SPECTRAL2 + ['true_color']:
         nb_ = 3 if fn in SPECTRAL3 + ['true_color'] else 2
         kind = 'spectral' if dtype not in ('int8', 'uint8') else 'pos'
@@ -1196,11 +1259,16 @@ def gen_case(rng, fn, H=None, W=None, style=None, sched=None):
         if nb_ == 3:
             case['data3'] = gen_data(rng, H, W, dtype, kind)
         if fn == 'savi':
-            case['soil_factor'] = rng.choice([1.0, 0.5, 0.0, -1.0])
+            case['soil_factor'] = rng.choice([1.0, 0.5, 0.0, -1.0, round(rng.uniform(-1, 1), 3)])
+        if fn == 'evi' and rng.random() < 0.6:
+            case['evi_params'] = dict(c1=rng.choice([6.0, 1, 0.0, round(rng.uniform(0, 10), 2)]),
+                                      c2=rng.choice([7.5, 2, 0.0, round(rng.uniform(0, 10), 2)]),
+                                      soil_factor=rng.choice([1.0, 0.0, -1.0, 0.25]),
+                                      gain=rng.choice([2.5, 0.0, 1, 10.0]))
         if fn == 'true_color':
-            case['nodata'] = rng.choice([1, 0, 5])
-            case['c'] = rng.choice([10.0, 5.0])
-            case['th'] = rng.choice([0.125, 0.5])
+            case['nodata'] = rng.choice([1, 0, 5, -1, -9999, 0.5, 1000])
+            case['c'] = rng.choice([10.0, 5.0, 1.0, 25.0])
+            case['th'] = rng.choice([0.125, 0.5, 0.0, 1.0])
     elif fn == 'perlin':
         case['freq'] = [rng.choice([1, 2, 3, 4, 7]), rng.choice([1, 2, 3, 4, 5])]   # (x, y) multipliers, mostly unequal
         case['seed'] = rng.choice([0, 0, 1, 5]) if rng.random() < 0.4 else rng.randint(0, 1000)
@@ -1229,9 +1297,18 @@ def _mk(a, case, chunks=None):
     import xarray as xr
     H, W = a.shape
     csx, csy = case.get('cellsize', [1.0, 1.0])
-    attrs = {'res': (csx, csy)} if case.get('res_attr') else {}
+    lay = case.get('layout') or LAYOUTS[0]
+    attrs = {'res': (csx, csy)} if (case.get('res_attr') or not lay['coords']) else {}
     data = a if chunks is None else da.from_array(a, chunks=(tuple(chunks[0]), tuple(chunks[1])))
-    return xr.DataArray(data, dims=['y', 'x'], coords={'y': np.arange(H) * csy, 'x': np.arange(W) * csx}, attrs=attrs)
+    dy, dx = lay['dims']
+    coords = {}
+    if lay['coords']:
+        ys = np.arange(H) * csy
+        coords = {dy: ys[::-1].copy() if lay['desc'] else ys, dx: np.arange(W) * csx}
+    if lay['scalar']:
+        coords['band'] = 1
+        coords['spatial_ref'] = 0
+    return xr.DataArray(data, dims=[dy, dx], coords=coords, attrs=attrs)
 
 
 def make_bands(case, dask_backed):
@@ -1270,6 +1347,8 @@ def call_fn(case, dask_backed, bands=None):
     if fn == 'hillshade':
         return xrspatial.hillshade(r, azimuth=case['azimuth'], angle_altitude=case['angle_altitude'])
     if fn == 'mean':
+        if case.get('excludes') is not None:
+            return focal.mean(r, passes=case['passes'], excludes=list(case['excludes']))
         return focal.mean(r, passes=case['passes'])
     if fn in KERNELLED:
         k = np.array(case['kernel'], dtype='float64')
@@ -1286,6 +1365,8 @@ def call_fn(case, dask_backed, bands=None):
         return classify.reclassify(r, bins=list(case['bins']), new_values=list(case['new_values']))
     if fn == 'equal_interval':
         return classify.equal_interval(r, k=case['k'])
+    if fn == 'evi' and case.get('evi_params'):
+        return multispectral.evi(r, band('data2', 'chunks2'), band('data3', 'chunks3'), **case['evi_params'])
     if fn in SPECTRAL3:
         return getattr(multispectral, fn)(r, band('data2', 'chunks2'), band('data3', 'chunks3'))
     if fn == 'savi':
@@ -1389,7 +1470,10 @@ def oracle(ctx, case, rn, rd, isd):
         return False
     if fn in ('perlin', 'generate_terrain'):
         scale = 1.0 if fn == 'perlin' else float(abs(case['zfactor']))
-        tol = 2e-6 * scale
+        # the NumPy path stores and normalises in the TEMPLATE dtype (float16 / float32 / float64), the Dask path in
+        # float32 / float64: the stated tolerance is 2 ulp of the coarser of the two, at least 2e-6
+        # (generate_terrain accumulates 16 noise layers, cubes and normalises in that dtype: 32 ulp)
+        tol = max(2e-6, (2 if fn == 'perlin' else 32) * float(np.finfo(np.dtype(case['dtype'])).eps)) * scale
         a = rn.astype('float64')
         b = rd.astype('float64')
         bad = ~((np.abs(a - b) <= tol) | (np.isnan(a) & np.isnan(b)))
@@ -1413,8 +1497,13 @@ def oracle(ctx, case, rn, rd, isd):
         z = hotspot_z(case)
         az = np.abs(z.astype('float64'))
         near = np.zeros(z.shape, dtype=bool)
+        # a global float32 mean/std reduced in another order moves z by about eps32 * (|mean|/std + |z|)
+        d32 = _arr(case['data'], case['dtype']).astype(np.float32)
+        with np.errstate(all='ignore'):
+            cond = float(abs(np.nanmean(d32)) / np.nanstd(d32))
+        ztol = np.maximum(1e-4, 16 * 2.0 ** -24 * (cond + az)) if np.isfinite(cond) else 1e-4
         for t in (1.65, 1.96, 2.58, 1.29, 2.33):
-            near |= np.abs(az - t) <= 1e-4
+            near |= np.abs(az - t) <= ztol
         bad = (rn != rd) & ~near
         if not bad.any():
             ctx.count('tolerated/hotspots-threshold')
@@ -1454,7 +1543,7 @@ def model_eligible(case):
     if fn == 'apply':
         return case['func'] in ('_calc_sum', '_calc_max', '_calc_min')
     if fn == 'mean':
-        return case['passes'] == 1
+        return case['passes'] == 1 and case.get('excludes') is None
     if fn == 'hillshade':
         # sun at the zenith: the shading reduces to (1/sqrt(1+|grad|^2)+1)/2, a function of the model's 4*|grad|^2
         return case['angle_altitude'] == 90
@@ -1827,6 +1916,16 @@ def explore(ctx, case, pending=None):
     ctx.count('chunking/%s' % case.get('style', '?'))
     ctx.count('sched/%s-%s' % (case['sched'], case['workers']))
     ctx.count('dtype/%s' % case['dtype'])
+    lay = case.get('layout') or LAYOUTS[0]
+    ctx.count('layout/%s%s%s%s' % ('-'.join(lay['dims']), '' if lay['coords'] else '/nocoords', '/scalar' if lay['scalar'] else '',
+                                  '/desc' if lay['desc'] else ''))
+    if case['fn'] == 'mean':
+        ctx.count('param/mean/passes=%d' % case['passes'])
+        ctx.count('param/mean/excludes=%s' % ('default' if case.get('excludes') is None else len(case['excludes'])))
+    if case['fn'] == 'equal_interval':
+        ctx.count('param/equal_interval/k%s' % ('<=6' if case['k'] <= 6 else '<=16' if case['k'] <= 16 else '<=64'))
+    if case.get('kind') == 'offset':
+        ctx.count('param/hotspots/offset')
     rn, rd, isd = run_both(case)
     ok = oracle(ctx, case, rn, rd, isd)
     if ok and pending is not None and model_eligible(case):
@@ -1848,6 +1947,17 @@ def targeted_cases(rng, fn):
             c['kernel'] = gen_kernel(rng, H, W, binary=(fn != 'convolution_2d'), force=(kr, kc))
             c['chunks'] = gen_chunks(rng, H, W, c['style'], (kr // 2, kc // 2))
             out.append(c)
+        if fn == 'hotspots':
+            # large offset / small spread: the conditioning |mean|/std of the global z-score is 1e2 .. 1e5
+            for _ in range(2):
+                H, W = rng.randint(6, 12), rng.randint(6, 12)
+                c = gen_case(rng, fn, H, W)
+                c['dtype'] = rng.choice(['int32', 'int64', 'uint32', 'float32', 'float64'])
+                c['data'] = gen_hotspot_offset(rng, H, W)
+                c['kind'] = 'offset'
+                c['kernel'] = [[1.0] * 3 for _ in range(3)]
+                c['chunks'] = gen_chunks(rng, H, W, c['style'], (1, 1))
+                out.append(c)
     else:
         for style in ('ones', 'single', 'random'):
             out.append(gen_case(rng, fn, rng.randint(2, 9), rng.randint(2, 9), style=style))
@@ -1855,8 +1965,12 @@ def targeted_cases(rng, fn):
 
 
 def run(ctx, heavy=False):
+    global _DT_POOL
     rng = ctx.rng
     quick = ctx.quick() and not heavy
+    _DT_POOL = (rng.sample(INT_DT, 3) + ['float32', 'float64'] * 2 + (['float16'] if rng.random() < 0.3 else [])) \
+        if quick else None
+    ctx.notes.append('dtype pool of this run: %s' % (sorted(set(_DT_POOL)) if _DT_POOL else 'all'))
     pending = []
     per_fn = 6 if quick else 100
     budget = 95 if quick else 17 * 60
@@ -1911,6 +2025,7 @@ def run(ctx, heavy=False):
             c['func'] = rng.choice(['_calc_sum', '_calc_max', '_calc_min'])
         if fn == 'mean':
             c['passes'] = 1
+            c['excludes'] = None
         explore(ctx, c, pending)
     # 3. thorough: ALL chunkings for H, W <= 4
     if not quick:
@@ -1940,6 +2055,8 @@ def run(ctx, heavy=False):
 def search(ctx):
     """a proof obligation / the correspondence broke and the normal run showed no failing input: more cases, biased to
     non-square kernels, NaN placement and small chunks"""
+    global _DT_POOL
+    _DT_POOL = None
     model = ctx.model
     ctx.model = None
     try:
@@ -1965,7 +2082,18 @@ def search(ctx):
         ctx.model = model
 
 
+def _unjson(o):
+    if isinstance(o, dict):
+        return {k: _unjson(v) for k, v in o.items()}
+    if isinstance(o, list):
+        return [_unjson(v) for v in o]
+    if o in ('nan', 'inf', '-inf'):
+        return float(o)
+    return o
+
+
 def replay_case(ctx, case):
+    case = _unjson(case)
     pending = []
     if 'variants' in case:
         case = {k: v for k, v in case.items() if k != 'failing_variant'}
